@@ -15,10 +15,10 @@ CHECKS = {
          "Every ordered pair of ~450 (thorough ~1050) unit spellings (all units, prefixed, products/quotients, powered and prefixed-and-powered, spellings that cancel over the same or over different unit names, spellings that contribute/cancel/re-contribute a base) under + - and to, with non-zero and with zero-valued (written and computed) operands, plus plain-number adoption in both operand orders: Ok iff the independent table gives equal base dimensions, with exact SI value and the cast result expressed in the target unit.",
          "Independent unit table (tables.rs); syntactically cancelling spellings (m/m) and prefixed words the tool rejects are not judged.", "3 C02"),
  "C03": ("exploration", E1 + ": commensurable unit pairs, prefixes, powers, composites vs SI scales, plus table-free conversion laws on the real code",
-         "All ordered pairs per commensurability class x magnitudes, every prefix spelling, powers -3..3, every prefix symbol crossed with every power -3..3 (as source, as target and prefix-to-prefix), 2-4 factor composites and composites naming the same units on both sides with differently distributed powers against the table; round-trip, via-unit, unparenthesised cast chains and scaling laws evaluated on the real code only (no table).",
+         "All ordered pairs per commensurability class x magnitudes, every prefix spelling, powers -3..3, every prefix symbol crossed with every power -3..3 (as source, as target and prefix-to-prefix; thorough: on every non-offset unit of the table, powers to +-5, 12 magnitudes per pair), 2-4 factor composites and composites naming the same units on both sides with differently distributed powers against the table; round-trip, via-unit, unparenthesised cast chains and scaling laws evaluated on the real code only (no table).",
          "Independent unit table for the direct oracle; the laws need none. Words misread by the unit lexer are left to C05.", "3 C03"),
  "C04": ("exploration", E1 + ": products/quotients/powers of quantities vs SI value and dimension arithmetic",
-         "All pairs of 55 quantity spellings (incl. one unit under several prefixes and powers, derived-per-base compounds) under * and / (either side parenthesised), all triples over a core, (q)^n for n=-3..3 for every documented unit, one unit under two prefixes and two powers on either side of * and /, zero-valued quantities (written and computed) under ^n, * and /; SI value and base dimensions must equal the reference evaluation of the tree.",
+         "All pairs of 55 quantity spellings (incl. one unit under several prefixes and powers, derived-per-base compounds) under * and / (either side parenthesised), all triples over a core (thorough: over the whole list, plus all quadruples in three groupings over a 10-quantity core), (q)^n for n=-3..3 (thorough -6..6) for every documented unit, one unit under two prefixes and two powers on either side of * and /, zero-valued quantities (written and computed) under ^n, * and /; SI value and base dimensions must equal the reference evaluation of the tree.",
          "Independent unit table; display unit never compared.", "3 C04"),
  "C05": ("exploration", E1 + ": the whole unit vocabulary (names x prefixes, 2- and 3-name concatenations, unit expressions) vs independent segmentation",
          "Every name x every prefix spelling, every 2-name concatenation, short 3-name concatenations and all unit expressions of <=3 (4) items through both entry points; an accepted word must mean one of its valid segmentations over the independent table, bare documented names their own (standard) meaning; every documented unit under the powers 1,-1,2,-2,3 is converted to its dimensions spelled in base units (exact scale^p), which exercises the tool's own per-unit expansion.",
@@ -33,10 +33,10 @@ CHECKS = {
          "Every value of a rational grid (small p/q, p/q*10^k for k in -40..40, neighbours of powers of ten) under every limit x exponent_limit spec (quick 42, thorough 300), mark on and off; the printed text is re-read by an own reader and must be the truncation toward zero with mark iff something non-zero was cut.",
          "Magnitudes between grid points behave like the points.", "3 C08"),
  "C10": ("exploration", E1 + ": rational grid x {floor,ceil,round,round(x,n)} vs integer-arithmetic definitions, in release and debug-assertion builds",
-         "Every p/q of a grid (negatives, integers, halves, boundary +-10^-k for k<=7, and integer/half +-10^-k for k in 8..25 at magnitudes 0..2^64) through floor/ceil/round/round(x,n), n=-6..6, units carried, nested calls (a call as value or as digits argument), wrong arities incl. nested ones; compared with exact integer definitions; both build profiles so debug-only assertions count.",
+         "Every p/q of a grid (|p| <= 40, q <= 8; thorough |p| <= 400, q <= 40; negatives, integers, halves, boundary +-10^-k for k<=7, and integer/half +-10^-k for k in 8..25 at magnitudes 0..2^64) through floor/ceil/round/round(x,n), n=-6..6, units carried, nested calls (a call as value or as digits argument), wrong arities incl. nested ones; compared with exact integer definitions; both build profiles so debug-only assertions count.",
          "Non-integer digits arguments are not judged.", "3 C10"),
  "C09": ("exploration", E1 + ": magnitudes x scale pairs x chains x non-alone positions vs the affine formulas",
-         "12 magnitudes x 36 scale-spelling pairs, all chains up to length 4, every ordered pair of 21 prefixed scale words (m k n G milli kilo on K, degC, degF) x 5 magnitudes and chains through a prefixed scale, and several casts in one query, sums and differences of two temperatures over all 36 spelling pairs, and every placement of a scale that is not alone with power one (powers, products, quotients) - the latter must be refused or treated as an interval.",
+         "12 magnitudes x 36 scale-spelling pairs (thorough: also every multiple of 1/8 from -500 to 1000 x the nine scale pairs), all chains up to length 4 (thorough 5), every ordered pair of 21 prefixed scale words (m k n G milli kilo on K, degC, degF) x 5 magnitudes and chains through a prefixed scale, and several casts in one query, sums and differences of two temperatures over all 36 spelling pairs, and every placement of a scale that is not alone with power one (powers, products, quotients) - the latter must be refused or treated as an interval.",
          "The affine formulas are written out in the harness.", "3 C09"),
  "C11": ("exploration", E1 + ": token soups, unicode strings and 1/2-edit neighbourhoods of seeds; no panic/abort/hang, located errors; both build profiles and the real binary on a stride",
          "All token sequences <=3 (4) over 46 tokens (incl. values that are zero only after a unit conversion) x joiner patterns, all unicode strings <=4 (5) over 30 code points, every 1-edit (thorough 2-edit) of 66 seeds, a repetition/nesting ladder (k up to 257) over 1..2 structural tokens, in release and debug-assertion builds; each result must display or be an error with an in-bounds char-boundary range that the diagnostic renderer accepts; worker processes attribute aborts and hangs to the input.",
@@ -57,10 +57,10 @@ CHECKS = {
          "All 878 constants decoded independently; every typeable permutation of their words is looked up with descriptions on; the returned constant must carry the words and its value and unit must equal those stored in the data file (read without the subject's types).",
          "One in-memory Db per worker.", "3 C16"),
  "C17": ("exploration", E1 + ": all derived units x powers x prefixes, compounds, rational grid, every shipped constant through encode/decode",
-         "CBOR (and JSON for rationals) round trips incl. machine-word boundaries 2^k-1, 2^k, 2^k+1 (k=7..128) as numerator and denominator and compounds as the parser builds them from every prefix spelling x 16 unit words x 5 shapes; ids pairwise distinct and equal to the documented ids pinned in the harness; decoded units are the same statics.",
+         "CBOR (and JSON for rationals) round trips over a rational grid (thorough 2000/200), unit triples over a 10- (thorough 40-) unit core, incl. machine-word boundaries 2^k-1, 2^k, 2^k+1 (k=7..128) as numerator and denominator and compounds as the parser builds them from every prefix spelling x 16 unit words x 5 shapes; ids pairwise distinct and equal to the documented ids pinned in the harness; decoded units are the same statics.",
          "serde_cbor/serde_json are faithful carriers.", "3 C17"),
  "C19": ("exploration", E1 + ": query family x {default,--exact} through the real binary vs text rebuilt from library results",
-         "Value shapes x unit shapes x error/multi-result/fact compositions, every documented unit alone / squared / as denominator / in products and quotients / prefixed, 2- and 3-digit exponents, negative tiny/huge values, every ordered pair and triple of six result kinds in one query, both modes, run through the `any` binary built from /repo and compared line by line with the stated printing rule applied to the library's results; every printed unit is additionally re-read with the harness's own vocabulary table and must denote the computed unit (SI scale and dimensions), with a blank iff it has a numerator part, no plural form when the value is one and none after the slash; in decimal mode the printed number is re-read and judged against the value with C08's oracle.",
+         "Value shapes x unit shapes x error/multi-result/fact compositions, every documented unit alone / squared / as denominator / in products and quotients / prefixed, 2- and 3-digit exponents, negative tiny/huge values, every ordered pair and triple (thorough: quadruple) of six result kinds in one query, thorough also every ordered pair of 62 quantities as a product and a quotient, every documented unit under every prefix symbol and every shipped fact by its own words, both modes, run through the `any` binary built from /repo and compared line by line with the stated printing rule applied to the library's results; every printed unit is additionally re-read with the harness's own vocabulary table and must denote the computed unit (SI scale and dimensions), with a blank iff it has a numerator part, no plural form when the value is one and none after the slash; in decimal mode the printed number is re-read and judged against the value with C08's oracle.",
          "Decimal rendering is taken from the library (C08 judges it); no exit code is required; two display-only names (`fl oz`, `g` for gforce) are aliased in the re-reader.", "3 C19"),
  "C18": ("model_checking", "explicit-state search over operation histories executed on the real Db (state = history, canonicalised by probe-set answers) plus exhaustive expression enumeration",
          "All histories of length <=3 (4) over 18 operations (9 queries incl. a word shared by several constants, a full word set containing it, and a three-result query failing in the middle; describe on/off) on one shared Db: every step must answer as on a fresh Db and leave the probe-set answers unchanged; all histories <=3 over 20 lookup-free unit/number/function queries against hand-written exact expectations; histories over up to 16 nearly colliding full word sets against the independently decoded constants; 440 multi-result queries (incl. casts) whose computed results must all be described whatever fails around them; every distinct single word of the data set (described constant = value returned); the real binary with/without --describe over 8 phrases (sourced and sourceless constants): every ordered pair and triple of results and every product must print each phrase's own single-phrase description lines in order; all expressions with <=3 operands over literals and fact phrases with describe on/off.",
